@@ -119,7 +119,10 @@ def leaf(name, mask, delta):
             pass
         except Exception as e:  # noqa
             problems.append('execute with wrong count raised %r' % e)
-        return problems
+        if problems:
+            return problems
+        # call sequence: a refused execute leaves the prepared statement as it was - the execute with the right values that follows
+        # must plan like the inlined text (checked by the code below)
     try:
         got = []
         for st in planner.execute_steps(vals):
@@ -152,14 +155,15 @@ def leaf(name, mask, delta):
             pass
         except Exception as e:  # noqa
             problems.append('second execute of the prepared statement raises an internal error %s: %s' % (type(e).__name__, str(e)[:80]))
+    after = ' (after an execute with the wrong number of values was refused)' if delta != 0 else ''
     if gerr != werr:
-        problems.append('execute raises %s but planning the inlined text raises %s' % (gerr, werr))
+        problems.append('execute raises %s but planning the inlined text raises %s%s' % (gerr, werr, after))
     elif got is not None:
         if plan_repr(got) != plan_repr(want):
-            problems.append('plan differs from the plan of the inlined text: %s vs %s' % (plan_repr(got)[:3], plan_repr(want)[:3]))
+            problems.append('plan differs from the plan of the inlined text%s: %s vs %s' % (after, plan_repr(got)[:3], plan_repr(want)[:3]))
         left = [s for s in plan_repr(got) if 'Parameter' in s or ':?' in s]
         if left:
-            problems.append('placeholder left unbound: %s' % left[0][:120])
+            problems.append('placeholder left unbound%s: %s' % (after, left[0][:120]))
     return problems
 
 
